@@ -841,7 +841,53 @@ class SDatetime(RD, metaclass=_Meta):
         f.__name__ = name
         return f
 
-    for _n in ("strftime", "isoformat", "ctime", "date", "time", "timetz", "timetuple", "utctimetuple", "isocalendar", "__format__", "__str__"):
+    def strftime(s, fmt):
+        """%m %d %H %M %S %f %z %% and literal text render symbolically (fixed-width digit terms); anything else concretises"""
+        from . import strs
+        real = None
+        if s._sym() is not None and isinstance(fmt, str) and not strs.s_is_sym(fmt):
+            try:
+                real = _plain_copy(s).strftime(fmt)
+            except Exception:  # noqa: BLE001
+                real = None
+        out = None
+        if real is not None:
+            out, i, f7 = [], 0, s._terms()
+            widths = {"m": ("month", 2), "d": ("day", 2), "H": ("hour", 2), "M": ("minute", 2), "S": ("second", 2), "f": ("microsecond", 6)}
+            while i < len(fmt) and out is not None:
+                ch = fmt[i]
+                if ch != "%":
+                    out.append(z3.IntVal(ord(ch)))
+                    i += 1
+                    continue
+                d = fmt[i + 1] if i + 1 < len(fmt) else ""
+                i += 2
+                if d == "%":
+                    out.append(z3.IntVal(37))
+                elif d in widths:
+                    name, w = widths[d]
+                    out += strs.digits_fixed(f7[name], w, getattr(RD, name).__get__(s))
+                elif d == "z":
+                    if s.tzinfo is None:
+                        continue
+                    ot, oc = s._off()
+                    if not branch(ot % (60 * US) == 0, oc % (60 * US) == 0):
+                        out = None
+                        break
+                    a, ca = z3.If(ot < 0, -ot, ot), abs(oc)
+                    out.append(z3.If(ot < 0, z3.IntVal(45), z3.IntVal(43)))
+                    out += strs.digits_fixed(a / (3600 * US), 2, ca // (3600 * US))
+                    out += strs.digits_fixed((a / (60 * US)) % 60, 2, ca // (60 * US) % 60)
+                else:
+                    out = None
+            if out is not None and len(out) != len(real):
+                out = None
+        if out is None:
+            s._pin("datetime.strftime")
+            return RD.strftime(s, fmt)
+        return strs.mks(strs.SStr, [z3.simplify(t) for t in out], real)
+
+    for _n in ("isoformat", "ctime", "date", "time", "timetz", "timetuple", "utctimetuple", "isocalendar", "__format__", "__str__"):
         locals()[_n] = _pinned(_n)
     del _pinned, _n
 
@@ -855,6 +901,12 @@ class SDatetime(RD, metaclass=_Meta):
         return (RD, tuple(g(n) for n in _FIELDS) + (_real_tz(RD.tzinfo.__get__(s)),))
 
     __reduce_ex__ = lambda s, p: s.__reduce__()  # noqa: E731
+
+
+def _plain_copy(s):
+    """a real datetime.datetime with the raw (current model) value of s"""
+    g = lambda n: getattr(RD, n).__get__(s)  # noqa: E731
+    return RD(*[g(n) for n in _FIELDS], tzinfo=_real_tz(RD.tzinfo.__get__(s)))
 
 
 def _fields_to_clus(cs):
